@@ -143,6 +143,9 @@ def main():
     seed = int(os.environ.get('VERIF_SEED', '1'))
     t0 = time.time()
     mod = importlib.import_module('props.' + pid)
+    if not a.replay:
+        import shutil
+        shutil.rmtree(os.path.join(VERIF, 'replays', pid), ignore_errors=True)
     known = load_known()
     violations = []      # (replay_path, suffix)
     known_hits = []
